@@ -170,9 +170,9 @@ def ref_mode(sym, vs):
     return [v for v,c in zip(vs,counts) if c == top]
 
 def impute_params(tier):
-    return [dict(cont=c, stat=s, ind=i, using=u, n=3) for c in ('dense','sparse','scalar') for s in ('mean','median','mode') for i in (True,False) for u in (None,1,2)]
+    return [dict(cont=c, stat=s, ind=i, using=u, n=3) for c in ('dense','sparse','scalar') for s in ('mean','median','mode') for i in (True,False) for u in (None,1,2,5)]      # 5: a window longer than the data
 
-@obligation('C11','impute', bounds={'quick':"N=3; dense (2 features, second numeric or string), sparse (a,b; b present per row by choice) or scalar contexts; each numeric cell symbolic or None incl. the first row; stat in {mean,median,mode}; indicator on/off; using in {None,1,2}",
+@obligation('C11','impute', bounds={'quick':"N=3; dense (2 features, second numeric or string), sparse (a,b; b present per row by choice) or scalar contexts; each numeric cell symbolic or None incl. the first row; stat in {mean,median,mode}; indicator on/off; using in {None,1,2,5}",
                                     'thorough':"same"},
             functions=FUNCS, params=impute_params, classify=_classify, budget={'quick':80,'thorough':900})
 def impute(sym, cont, stat, ind, using, n):
@@ -285,3 +285,31 @@ def shortcuts(sym, which):
         for st in stats: chain = list(Impute(st, ind, using).filter(chain))
         exp = [i['context'] for i in chain]
         sym.check(len(got) == len(exp) and all(len(g) == len(e) and all(x == y for x,y in zip(g,e)) for g,e in zip(got,exp)), f"Environments.impute({stats}, indicator={ind}, using={using}) differs from applying the Impute filters one after the other: {got} vs {exp}")
+
+# ---------------------------------------------------------------------------------------------------
+@obligation('C11','scale_nan', bounds="NOT symbolic values: 4 interactions with concrete numeric features, one cell of the first feature being NaN at a solver-enumerated position (incl. the first interaction); dense / scalar / sparse contexts; every shift in {0,min,mean,median} x scale in {2,minmax,std,iqr,maxabs} x using in {None,2,3}: the NaN cell stays NaN, every other cell equals (x+shift)*scale with the statistics of the non-NaN window values (1e-9)",
+            functions=FUNCS, params=lambda tier: [dict(shift=sh, scale=sc) for sh in (0,'min','mean','median') for sc in (2,'minmax','std','iqr','maxabs')], classify=_classify)
+def scale_nan(sym, shift, scale):
+    import math
+    cont = sym.choice('cont', ['dense','scalar','sparse'])
+    if cont == 'sparse' and shift != 0: sym.assume(False)
+    pos = sym.choice('nan_at', [0,1,2,3]); using = sym.choice('using', [None,2,3])
+    xs = [1.0, 4.0, -2.0, 7.0]; ys = [5, 7, 9, 6]
+    xs[pos] = float('nan')
+    inter = []
+    for i in range(4):
+        ctx = [xs[i], ys[i]] if cont == 'dense' else xs[i] if cont == 'scalar' else {'a': xs[i], 'b': ys[i]}
+        inter.append({'context': ctx, 'actions': [1,2], 'rewards': [1,0]})
+    try: out = list(Scale(shift, scale, 'context', using).filter(iter(inter)))
+    except Exception as e: sym.fail(f"Scale({shift!r},{scale!r},using={using}) raised {type(e).__name__}: {e} on a {cont} feature holding one NaN (row {pos})")
+    W = 4 if using is None else using
+    vs = [v for v in xs[:W] if v == v]
+    ss = ref_shift_scale(sym, vs, shift, scale)
+    for i in range(4):
+        got = out[i]['context'][0] if cont == 'dense' else out[i]['context'] if cont == 'scalar' else out[i]['context']['a']
+        if i == pos: sym.check(got != got, f"row {i}: the NaN cell became {got!r}")
+        elif ss is not None: sym.check(abs(got - (xs[i]+ss[0])*ss[1]) < 1e-9, f"row {i}: {got!r} is not (x+shift)*scale = {(xs[i]+ss[0])*ss[1]!r} with shift={shift}, scale={scale} over the non-NaN values {vs} of the first {using} interactions")
+        if cont != 'scalar':
+            gy = out[i]['context'][1] if cont == 'dense' else out[i]['context']['b']
+            s2 = ref_shift_scale(sym, [float(v) for v in ys[:W]], shift, scale)
+            if s2 is not None: sym.check(abs(gy - (ys[i]+s2[0])*s2[1]) < 1e-9, f"row {i}: the NaN-free feature is scaled wrongly")
